@@ -131,9 +131,9 @@ def escapes(fn, start, is_pass, exempt_edge=None, is_target=None):
             if break_:
                 break
     seen = set()
-    stack = [(bid0, idx0, [(bid0, None)])]
+    stack = [(bid0, idx0, [(bid0, None)], frozenset())]
     while stack:
-        bid, after, path = stack.pop()
+        bid, after, path, scf = stack.pop()
         b = fn.bmap[bid]
         items = block_exprs(b)
         passed = False
@@ -163,17 +163,29 @@ def escapes(fn, start, is_pass, exempt_edge=None, is_target=None):
             if is_target is None:
                 return path + [(bid, None)]
             continue
+        t = b.get("term")
         for k, sc in enumerate(b["succ"]):
             s = sc.get("b")
             if s is None:
                 continue
             if exempt_edge is not None and exempt_edge(b, k):
                 continue
-            if s in seen:
+            nscf = scf
+            if t is not None and "c" in t and len(b["succ"]) == 2:
+                atoms = set((txt, tr) for (txt, tr, nd) in _cond_atoms(t["c"], k == 0))
+                # clang does not thread `!(A && B)` / `(A && B) == 0`: the operands are evaluated in their own blocks
+                # (terminators 'and' / 'or') and the enclosing `if` re-tests the whole expression.  Operand outcomes seen
+                # on this path prune the contradictory edge of that `if`.
+                if any((txt, not tr) in scf for (txt, tr) in atoms):
+                    continue
+                if t.get("k") in ("and", "or", "&&", "||"):
+                    nscf = frozenset(scf | atoms)
+                else:
+                    nscf = frozenset()
+            if (s, nscf) in seen:
                 continue
-            seen.add(s)
-            t = b.get("term")
-            stack.append((s, None, path + [(s, t.get("ln") if t else None)]))
+            seen.add((s, nscf))
+            stack.append((s, None, path + [(s, t.get("ln") if t else None)], nscf))
     return None
 
 
@@ -181,4 +193,275 @@ def mentions_call(x, names):
     for n in walk(x):
         if n.get("k") == "call" and n.get("fn") in names:
             return True
+    return False
+
+
+# ------------------------------------------------------------------------------------------ guard facts
+def _denames(e):
+    if isinstance(e, dict):
+        return {k: _denames(v) for k, v in e.items() if not (k == "n" and e.get("k") == "int")}
+    if isinstance(e, list):
+        return [_denames(x) for x in e]
+    return e
+
+
+def ftext(e):
+    """canonical text of an expression for fact matching (named integer constants printed as numbers)"""
+    from .pp import pp
+    return pp(_denames(strip(e)))
+
+
+def _cond_atoms(c, truth):
+    """Atoms (text, truth) implied when condition c evaluates to `truth` (only the sound directions:
+    a true conjunction gives both conjuncts, a false disjunction gives both negated disjuncts)."""
+    from .pp import pp
+    c = strip(c)
+    if c is None:
+        return []
+    k = c.get("k")
+    if k == "un" and c["op"] == "!":
+        return _cond_atoms(c["e"], not truth)
+    if k == "bin" and c["op"] == "&&" and truth:
+        return _cond_atoms(c["l"], True) + _cond_atoms(c["r"], True)
+    if k == "bin" and c["op"] == "||" and not truth:
+        return _cond_atoms(c["l"], False) + _cond_atoms(c["r"], False)
+    if k == "bin" and c["op"] in ("!=", "==") and strip(c["r"]) is not None and strip(c["r"]).get("k") == "int" \
+            and strip(c["r"])["v"] == 0:
+        return _cond_atoms(c["l"], truth if c["op"] == "!=" else not truth)
+    if k == "bin" and c["op"] in ("&&", "||"):
+        return []
+    out = [(ftext(c), truth, c)]
+    if k == "bin" and c["op"] in ("<", "<=", ">", ">=", "==", "!="):
+        l = strip(c["l"])
+        if l is not None and l.get("k") == "bin" and l["op"] == "=" and strip(l["l"]) is not None \
+                and strip(l["l"]).get("k") == "var":
+            # ((v = e) OP k) also establishes (v OP k)
+            c2 = dict(c)
+            c2["l"] = l["l"]
+            out.append((ftext(c2), truth, c2))
+    return out
+
+
+def guard_facts(fn, kill_on_assign=True):
+    """Forward must-analysis of branch facts: IN[block] = set of (condition text, truth) that hold on every path
+    from the entry to the block (a fact dies when a variable it mentions is assigned)."""
+    from .pp import pp
+    ALL = None
+    IN = {b["id"]: ALL for b in fn.blocks}
+    if fn.entry is None:
+        return {}
+    IN[fn.entry] = frozenset()
+    vars_of = {}
+
+    def mentions(text_node):
+        return set(n.get("id") for n in walk(text_node) if n.get("k") == "var" and "id" in n)
+
+    def transfer_block(b, facts):
+        facts = set(facts)
+        for el in b["el"]:
+            for n in walk(el["x"]):
+                tgt = None
+                if n.get("k") == "bin" and n["op"] in ("=", "+=", "-=", "|=", "&=", "^=", "<<=", ">>=", "*=", "/=", "%="):
+                    tgt = strip(n["l"])
+                elif n.get("k") == "un" and n["op"] in ("++", "--", "post++", "post--"):
+                    tgt = strip(n["e"])
+                elif n.get("k") == "decl":
+                    tgt = n.get("var")
+                if tgt is not None and tgt.get("k", "var") == "var" and "id" in tgt and kill_on_assign:
+                    facts = set(f for f in facts if tgt["id"] not in vars_of.get(f[0], ()))
+                elif tgt is not None and tgt.get("k") == "mem" and kill_on_assign:
+                    key = pp(tgt)
+                    facts = set(f for f in facts if key not in f[0])
+        return facts
+    work = [fn.entry]
+    while work:
+        bid = work.pop()
+        b = fn.bmap[bid]
+        if IN[bid] is ALL:
+            continue
+        out = transfer_block(b, IN[bid])
+        t = b.get("term")
+        for k, sc in enumerate(b["succ"]):
+            s = sc.get("b")
+            if s is None:
+                continue
+            add = set()
+            if t is not None and "c" in t and t.get("k") in ("if", "and", "or", "for", "while", "do", "cond", "&&", "||", "?:") \
+                    and len(b["succ"]) == 2:
+                for (txt, truth, node) in _cond_atoms(t["c"], k == 0):
+                    vars_of.setdefault(txt, mentions(node))
+                    add.add((txt, truth))
+            new = frozenset(out | add)
+            if IN[s] is ALL:
+                IN[s] = new
+                work.append(s)
+            else:
+                m = IN[s] & new
+                if m != IN[s]:
+                    IN[s] = m
+                    work.append(s)
+    return {k: (v if v is not ALL else frozenset()) for k, v in IN.items()}
+
+
+def reaching_defs(fn):
+    """IN[block] = {var id: set(def ids)}; defs[def id] = (block id, element index, kind, rhs expression | None).
+    kinds: 'decl', 'assign', 'outarg' (address passed to a call), 'param'."""
+    defs = {}
+    per_block = {}
+    for b in fn.blocks:
+        lst = []
+        for i, ln, x in block_exprs(b):
+            for n in walk(x):
+                if n.get("k") == "decl" and "init" in n and "id" in (n.get("var") or {}):
+                    lst.append((n["var"]["id"], (b["id"], i, "decl", n["init"], ln)))
+                elif n.get("k") == "bin" and n["op"] == "=":
+                    l = strip(n["l"])
+                    if l is not None and l.get("k") == "var" and "id" in l:
+                        lst.append((l["id"], (b["id"], i, "assign", n["r"], ln)))
+                elif n.get("k") == "bin" and n["op"] in ("+=", "-=", "|=", "&=", "^=", "<<=", ">>="):
+                    l = strip(n["l"])
+                    if l is not None and l.get("k") == "var" and "id" in l:
+                        lst.append((l["id"], (b["id"], i, "update", n, ln)))
+                elif n.get("k") == "call":
+                    for j, a in enumerate(n.get("a", [])):
+                        a0 = strip(a)
+                        if a0 is not None and a0.get("k") == "un" and a0["op"] == "&":
+                            v = strip(a0["e"])
+                            if v is not None and v.get("k") == "var" and "id" in v:
+                                lst.append((v["id"], (b["id"], i, "outarg", {"call": n, "arg": j}, ln)))
+        per_block[b["id"]] = lst
+    for vid_defs in per_block.values():
+        for vid, d in vid_defs:
+            defs[id(d)] = d
+    IN = {b["id"]: {} for b in fn.blocks}
+    if fn.entry is None:
+        return IN, defs
+    for p in fn.params:
+        if "id" in p:
+            d = (fn.entry, None, "param", None, fn.line)
+            defs[id(d)] = d
+            IN[fn.entry].setdefault(p["id"], set()).add(id(d))
+    work = [b["id"] for b in fn.blocks]
+    while work:
+        bid = work.pop()
+        cur = {k: set(v) for k, v in IN[bid].items()}
+        for vid, d in per_block[bid]:
+            if d[2] == "update":
+                cur.setdefault(vid, set()).add(id(d))
+            else:
+                cur[vid] = {id(d)}
+        for s in succs(fn, bid):
+            changed = False
+            for vid, ds in cur.items():
+                have = IN[s].setdefault(vid, set())
+                if not ds <= have:
+                    have |= ds
+                    changed = True
+            if changed:
+                work.append(s)
+    return IN, defs, per_block
+
+
+def defs_at(fn, rd, bid, idx, vid):
+    """definitions of local vid reaching element idx of block bid"""
+    IN, defs, per_block = rd
+    cur = set(IN[bid].get(vid, set()))
+    for v, d in per_block[bid]:
+        if d[1] == idx:
+            break
+        order = [i for i, _, _ in block_exprs(fn.bmap[bid])]
+        if idx in order and d[1] in order and order.index(d[1]) >= order.index(idx):
+            break
+        if v == vid:
+            if d[2] == "update":
+                cur.add(id(d))
+            else:
+                cur = {id(d)}
+    return [defs[i] for i in cur]
+
+
+def edge_only_errors(fn, block, k, callvar=None):
+    """Does every path starting with successor k of `block` end in an error return (negative constant, -expr, a
+    local last assigned a negative constant, or `callvar` unchanged)?  Returns None if so, else the line of an
+    offending return (0 for falling off the end of a non-void path)."""
+    if k >= len(block["succ"]) or block["succ"][k].get("b") is None:
+        return None
+    seen = set()
+    stack = [(block["succ"][k]["b"], frozenset())]
+    while stack:
+        bid, env = stack.pop()
+        if (bid, env) in seen or len(seen) > 6000:
+            continue
+        seen.add((bid, env))
+        bb = fn.bmap[bid]
+        e = dict(env)
+        done = False
+        for j, ln, x in block_exprs(bb):
+            for n in walk(x):
+                if n.get("k") == "bin" and n["op"] == "=":
+                    l = strip(n["l"])
+                    if l is not None and l.get("k") == "var" and "id" in l:
+                        r = strip(n["r"])
+                        if r is not None and r.get("k") == "int":
+                            e[l["id"]] = r["v"]
+                        elif r is not None and r.get("k") == "un" and r["op"] == "-" and (strip(r["e"]) or {}).get("k") == "int":
+                            e[l["id"]] = -strip(r["e"])["v"]
+                        else:
+                            e[l["id"]] = None
+            if x.get("k") == "ret":
+                rv = strip(x.get("e")) if x.get("e") is not None else None
+                if rv is None:
+                    return ln
+                if rv.get("k") == "int":
+                    if rv["v"] >= 0:
+                        return ln
+                elif rv.get("k") == "un" and rv["op"] == "-":
+                    pass
+                elif rv.get("k") == "var":
+                    if not (rv.get("id") == callvar and rv.get("id") not in e):
+                        val = e.get(rv.get("id"), "unset")
+                        if not (isinstance(val, int) and val < 0):
+                            return ln
+                else:
+                    return ln
+                done = True
+                break
+        if done:
+            continue
+        for s_ in succs(fn, bid):
+            stack.append((s_, frozenset(e.items())))
+    return None
+
+
+def success_ret(x):
+    """is the return element x possibly a success (non-negative) return?"""
+    e = strip(x.get("e")) if x.get("e") is not None else None
+    if e is None:
+        return True
+    if e.get("k") == "int":
+        return e["v"] >= 0
+    if e.get("k") == "un" and e["op"] == "-":
+        return False
+    return True
+
+
+def ret_is_error(gf, bid, x):
+    """A return element that is certainly an error: negative constant, -expr, or a variable known negative by a
+    branch fact on every path to it ((v < 0) true, (v >= 0) false, (v == 0) false with ... not used)."""
+    from .pp import pp
+    e = strip(x.get("e")) if x.get("e") is not None else None
+    if e is None:
+        return False
+    if e.get("k") == "int":
+        return e["v"] < 0
+    if e.get("k") == "un" and e["op"] == "-":
+        return True
+    if e.get("k") == "var":
+        facts = gf.get(bid, ())
+        n = e["n"]
+        for txt, truth in facts:
+            if truth and txt in ("(%s < 0)" % n, "(%s <= -1)" % n):
+                return True
+            if (not truth) and txt in ("(%s >= 0)" % n, "(%s == 0)" % n + "__never__"):
+                return True
     return False
